@@ -614,8 +614,8 @@ class LaserPath:
         """
 
         fn = pathlib.Path(filename)
-        if fn.suffix not in ['.pickle', 'pkl']:
-            fn = pathlib.Path(fn.stem + '.pkl')
+        if fn.suffix not in ['.pickle', '.pkl']:
+            fn = fn.with_name(fn.name + '.pkl')
         with open(fn, 'wb') as p:
             if as_dict:
                 dill.dump(self.__dict__, p)
